@@ -30,12 +30,12 @@ typedef struct {
 typedef struct {
     char *mem; size_t size;
     stream_t st[SIMDEV_MAX_STREAMS];
-} dev_t;
+} sdevice_t;
 
 static struct {
     simdev_cfg_t cfg;
     uint64_t seed;
-    dev_t dev[SIMDEV_MAX_DEV];
+    sdevice_t dev[SIMDEV_MAX_DEV];
     int hold;
     int in_progress;
     simdev_copy_tap_fn tap;
